@@ -26,7 +26,12 @@ oracle : (1) the REAL results of the two runs compared bound by bound (binary64 
          (5) domain edges: where F(X) returned a value and the wider X' leaves the domain of F (a pole inside for negative
          integer powers / the reciprocal, a negative lower end for sqrt / log), F(X') has to raise or to contain F(X): a
          finite non-containing value is a failure.
-streams also cover: integer powers k in {-4..5} of intervals, interval vectors and p-boxes (contained operand one-signed, containing
+         (6) Dempster-Shafer operands (to_pbox, arithmetic, envelope / imposition, rebuilt from their own read-out): the
+         widening makes focal elements coincide, nest or change order; the result must equal the one obtained from the
+         exactly computed p-box of the structure.
+streams also cover: the same cases at tiny / huge power-of-two scales (2^-70 .. 2^60); operands copied / deep-copied / pickled
+         before use; X' touching zero with X of magnitude below machine epsilon next to every pole; stacking of 1, steps-2,
+         steps-1, steps, steps+1 intervals; -0.0 as a constant; integer powers k in {-4..5} of intervals, interval vectors and p-boxes (contained operand one-signed, containing
          one one-signed / touching zero / zero inside); p-boxes with one flat bound, unaligned steps, one zero-width step; the same
          object on both sides (X op X, envelope(a, a)); operands touching zero exactly; integer-dtype / list / positional representations of the same numbers;
          thin but not degenerate operands (relative width 1e-9..1e-5, magnitudes down to 1e-9); constants below machine
@@ -97,6 +102,20 @@ def _integral(vals):
     return all(float(x) == int(x) and abs(x) < 2 ** 40 for x in vals)
 
 
+_VIA = None          # practice L: operands copied / deep-copied / pickled before use must give the same result
+
+
+def via(obj):
+    import copy, pickle
+    if _VIA == "copy":
+        return copy.copy(obj)
+    if _VIA == "deepcopy":
+        return copy.deepcopy(obj)
+    if _VIA == "pickle":
+        return pickle.loads(pickle.dumps(obj))
+    return obj
+
+
 def keep(obj, label, where=None):
     """remember a REAL operand / result object and its canonical value; verified again later (aliasing, shared buffers)"""
     try:
@@ -104,6 +123,9 @@ def keep(obj, label, where=None):
     except TypeError:
         return obj
     KEPT.append((obj, c, label, where if where is not None else _WHERE))
+    if label == "operand" and _VIA:
+        obj = via(obj)
+        KEPT.append((obj, c, label, where if where is not None else _WHERE))
     return obj
 
 
@@ -307,8 +329,8 @@ def impl_imc(spec, runs):
     """interval Monte Carlo on the operand sets of one case, in the order spec['order'], all on ONE dependency object
     and with the default random_state (as a user who builds the dependency once would do); the first operand set is
     run once more at the end.  Returns (results per run, level rows per run, repeated result, its rows)."""
-    global _REP, _WHERE
-    _REP, _WHERE = spec.get("rep", "float"), spec
+    global _REP, _WHERE, _VIA
+    _REP, _WHERE, _VIA = spec.get("rep", "float"), spec, spec.get("via")
     from pyuncertainnumber.propagation.mixed_up import interval_monte_carlo
     try:
         de = make_dependency(spec)
@@ -338,10 +360,42 @@ def impl_imc(spec, runs):
     return res, lev, again, lev_again
 
 
+def dss_run(spec, inp, exact_box):
+    """an operation with a Dempster-Shafer operand; with `exact_box` the operand is replaced by the p-box (left, right)
+    computed exactly from its definition (the hierarchy: both have to give the same result)"""
+    from pyuncertainnumber.pba.dss import DempsterShafer
+    import pyuncertainnumber as pun
+    if exact_box is None:
+        ivs = [[a, b] for a, b in zip(inp["lo"], inp["hi"])]
+        if spec.get("ctor") == "objs":
+            ivs = [mkI(v) for v in ivs]
+        elif spec.get("ctor") == "vec":
+            ivs = mkI([inp["lo"], inp["hi"]])
+        D = DempsterShafer(ivs, list(spec["masses"]) if spec.get("mass_list") else np.array(spec["masses"], dtype=float))
+        if spec["use"] == "roundtrip":
+            D = DempsterShafer.from_dsElements(D.structures)
+        keep(D.to_pbox(), "operand") if False else None
+    else:
+        D = stair(*exact_box)
+    use = spec["use"]
+    if use in ("to_pbox", "roundtrip"):
+        return D.to_pbox() if exact_box is None else D
+    P = stair(*inp["y"])
+    if use == "bin":
+        return getattr(P, spec["op"])(D, dependency=spec["dep"])
+    if use == "rbin":
+        return PYOPS[spec["op"]](D, P)
+    if use == "env":
+        return pun.envelope(P, D)
+    if use == "imp":
+        return pun.imposition(P, D)
+    raise ValueError(use)
+
+
 def impl(spec, inp):
     """one run of the real code"""
-    global _REP, _WHERE
-    _REP, _WHERE = spec.get("rep", "float"), spec
+    global _REP, _WHERE, _VIA
+    _REP, _WHERE, _VIA = spec.get("rep", "float"), spec, spec.get("via")
     f = spec["f"]
     if f == "ivl-bin":
         return guarded(lambda: PYOPS[spec["op"]](mkI(inp["x"]), mkI(inp["y"])))
@@ -401,6 +455,8 @@ def impl(spec, inp):
                 return stacking([mkI([a, b]) for a, b in zip(inp["lo"], inp["hi"])], weights=w)
             return stacking([[a, b] for a, b in zip(inp["lo"], inp["hi"])], weights=w)
         return guarded(run)
+    if f == "dss":
+        return guarded(lambda: dss_run(spec, inp, None))
     if f == "cut":
         return guarded(lambda: stair(*inp["x"]).alpha_cut(float(spec["alpha"])))
     if f == "slice":
@@ -552,6 +608,10 @@ def _wire(spec, inp):
         w = spec["weights"]
         ws = [1 / n] * n if w is None else [float(x) for x in w]
         return f"stack {ql(pvals())} {ql(inp['lo'])} {ql(inp['hi'])} {ql(ws)}"
+    if f == "dss":
+        if spec["use"] not in ("to_pbox", "roundtrip"):
+            return None
+        return f"stack {ql(pvals())} {ql(inp['lo'])} {ql(inp['hi'])} {ql([float(x) for x in spec['masses']])}"
     if f == "cut":
         return f"cut {ql(pvals())} {wire_pb(*inp['x'])} {q(spec['alpha'])}"
     if f == "slice":
@@ -605,7 +665,7 @@ def cum_ambiguous(spec, inp):
     """binary64 cumsum of the weights may decide a grid level the other way than the exact sum: such a
     stacking run is compared by the oracle only"""
     n = len(inp["lo"])
-    w = spec.get("weights")
+    w = spec.get("weights", spec.get("masses"))
     ws = np.repeat(1 / n, n) if w is None else np.array(w, dtype=float)
     eps = F(1, 2 ** 40)
     pv = [F(p) for p in pvals()]
@@ -1081,6 +1141,28 @@ def sub_result_check(spec, inp, res, exact, depth, rng, hint=0.0):
                     return {"why": "generalised-inverse", "bound": "left" if side == 1 else "right", "step": k,
                             "expected": float(e), "result": res[side][k]}
         return None
+    if f == "dss":
+        ws = [F(float(v)) for v in spec["masses"]]
+        el = ginv_exact([F(v) for v in inp["lo"]], ws)
+        er = ginv_exact([F(v) for v in inp["hi"]], ws)
+        if spec["use"] in ("to_pbox", "roundtrip"):
+            for side, exp in ((1, el), (2, er)):
+                for k, e in enumerate(exp):
+                    if e is not None and F(res[side][k]) != e:
+                        return {"why": "generalised-inverse", "bound": "left" if side == 1 else "right", "step": k,
+                                "expected": float(e), "result": res[side][k]}
+            return None
+        if any(e is None for e in el + er):
+            return None
+        ref = guarded(lambda: dss_run(spec, inp, ([float(e) for e in el], [float(e) for e in er])))
+        if ref[0] != "ok":
+            return {"why": "dss-operand-vs-its-pbox", "reference": list(ref)}
+        for side in (1, 2):
+            for k, (a, b) in enumerate(zip(res[side], ref[side])):
+                if not (pbx.tol_le(F(a), F(b), scale, depth) and pbx.tol_le(F(b), F(a), scale, depth)):
+                    return {"why": "dss-operand-vs-its-pbox", "bound": "left" if side == 1 else "right", "step": k,
+                            "with_dss": a, "with_its_exact_pbox": b}
+        return None
     if f in ("slice", "imc"):
         if spec["strategy"] != "direct" and spec.get("repeated"):
             return None
@@ -1465,7 +1547,29 @@ def gen_cases(ctx):
     S = ctx.scale
     cases = []
 
+    SCALES = [2.0 ** -70, 2.0 ** -40, 2.0 ** -30, 2.0 ** 36, 2.0 ** 60]
+    SCALABLE = ("ivl-bin", "pb-bin", "pb-raw", "pb-agg", "stack", "cut", "pb-neg", "pb-recip", "pb-num")
+
+    def scaled(v, sc):
+        if isinstance(v, dict):
+            return {k_: (scaled(x_, sc) if not k_.startswith("_") else x_) for k_, x_ in v.items()}
+        if isinstance(v, (list, tuple)):
+            return [scaled(x_, sc) for x_ in v]
+        return v * sc
+
     def add(stream, spec, runs, exact, nontriv=True):
+        if spec["f"] != "pb-raw" and "via" not in spec and rng.random() < 0.12:
+            spec["via"] = rng.choice(["deepcopy", "deepcopy", "pickle", "copy"])
+        if stream not in ("extreme-const", "int-dtype", "pb-raw-thin") and rng.random() < 0.07 and (
+                spec["f"] in SCALABLE or (spec["f"] == "ivl-un" and spec.get("fn") in ("neg", "abs", "recip"))):
+            # practice J: the same case at a tiny / huge power-of-two scale (exactness of integer and dyadic data is kept)
+            sc = rng.choice(SCALES)
+            if not (spec["f"] == "pb-num" and spec["op"] in ("mul", "div")):
+                if "c" in spec:
+                    spec = {**spec, "c": spec["c"] * sc}
+            runs = [scaled(r_, sc) for r_ in runs]
+            spec = {**spec, "scale": sc}
+            stream = stream + "@scaled"
         if "rep" not in spec and spec["f"] != "pb-raw":
             # theme B: the same numbers as float arrays (keywords), int64 arrays / Python ints, Python lists, positional arguments
             spec["rep"] = rng.choice(["float"] * 11 + ["int"] * 4 + ["list"] * 2 + ["pos"] * 3)
@@ -1619,6 +1723,39 @@ def gen_cases(ctx):
                     kk = rng.choice([1, 50, STEPS])
                     add("domain-edge", {"f": "pb-un", "fn": rng.choice([fn, "np" + fn])},
                         [{"x": [l1, [hi_] * STEPS]}, {"x": [[edge] * kk + l1[kk:], [hi_] * STEPS]}], False)
+    # ---- 2c. practice J next to a pole: X' touches zero exactly (lo == 0 or hi == 0), X inside it has non-zero values of
+    #           tiny magnitude (below machine epsilon, and just above it as a control): reciprocal, c / X, P / X under every
+    #           dependency, interval reciprocal and quotient.  1 / X' raises or is unbounded; a finite value that does not
+    #           contain 1 / X is a failure
+    for t_ in (1e-18, 2.0 ** -60, 1e-170, 2.0 ** -30, 1e-3):
+        for sgn in (1, -1):
+            for kind in ("pb-recip", "pb-numL", "pb-div-f", "pb-div-p", "pb-div-o", "pb-div-i", "ivl-recip", "ivl-div"):
+                kz = rng.choice([1, 20, STEPS // 2])
+                rest = sorted(rng.choice([0.5, 1, 2, 3]) for _ in range(STEPS - kz))
+                top = [rest[-1] + rng.choice([0, 1, 2])] * STEPS
+                wl, wr = [0.0] * kz + rest, top
+                nl = [t_] * kz + rest
+                nr = top if rng.random() < 0.5 else [max(a, b) for a, b in zip(nl, [rest[-1]] * STEPS)]
+                xn, xw = (nl, nr), (wl, wr)
+                if sgn < 0:
+                    xn = (sorted(-v for v in xn[1]), sorted(-v for v in xn[0]))
+                    xw = (sorted(-v for v in xw[1]), sorted(-v for v in xw[0]))
+                xn, xw = (list(xn[0]), list(xn[1])), (list(xw[0]), list(xw[1]))
+                if kind == "pb-recip":
+                    add("pole-tiny", {"f": "pb-recip"}, [{"x": xn}, {"x": xw}], False)
+                elif kind == "pb-numL":
+                    add("pole-tiny", {"f": "pb-num", "op": "div", "side": "L", "c": rng.choice([1, -2, 0.5])}, [{"x": xn}, {"x": xw}], False)
+                elif kind.startswith("pb-div"):
+                    pbx_ = base_box(rng, STEPS, rng.choice(["pos", "neg"]), False)
+                    add("pole-tiny", {"f": "pb-bin", "op": "div", "dep": kind[-1], "ykind": "pbox", "bare": False},
+                        [{"x": pbx_, "y": xn}, {"x": pbx_, "y": xw}], False)
+                elif kind == "ivl-recip":
+                    a1, a2 = ([t_, 2.0], [0.0, 2.0]) if sgn > 0 else ([-2.0, -t_], [-2.0, 0.0])
+                    add("pole-tiny", {"f": "ivl-un", "fn": "recip"}, [{"x": a1}, {"x": a2}], False)
+                else:
+                    a1, a2 = ([t_, 2.0], [0.0, 2.0]) if sgn > 0 else ([-2.0, -t_], [-2.0, 0.0])
+                    xx = rand_ivl(rng, None, True)
+                    add("pole-tiny", {"f": "ivl-bin", "op": "div", "form": "II", "widened": "y"}, [{"x": xx, "y": a1}, {"x": xx, "y": a2}], False)
     # ---- 3. nested interval expressions
     for _ in range(S(600, 7000)):
         nv = rng.choice([1, 2, 3])
@@ -1738,7 +1875,7 @@ def gen_cases(ctx):
         x, x2 = pair_box(rng, base_box(rng, STEPS, sx, general), grid, keep_sign=(kind == "recip"))
         if kind == "num":
             op, side = rng.choice(OPS4), rng.choice(["R", "L"])
-            c = rng.choice([-3, -1, 0, 1, 2, 5, 5, 10 ** 18, -3 * 10 ** 15]) if general is False else rng.choice([-2.5, -1.0, 0.0, 0.5, 3.0] + EXTREME)
+            c = rng.choice([-3, -1, 0, 1, 2, 5, 5, 10 ** 18, -3 * 10 ** 15]) if general is False else rng.choice([-2.5, -1.0, 0.0, -0.0, 0.5, 3.0] + EXTREME)
             if op == "div" and side == "L":
                 x, x2 = pair_box(rng, base_box(rng, STEPS, rng.choice(["pos", "neg"]), general), grid, keep_sign=True)
             spec = {"f": "pb-num", "op": op, "side": side, "c": c}
@@ -1864,7 +2001,7 @@ def gen_cases(ctx):
             nontriv=(v1 != v2))
     # ---- 10. stacking
     for _ in range(S(200, 3000)):
-        k = rng.choice([2, 3, 5, 8, 13, 40, 120])
+        k = rng.choice([1, 2, 3, 5, 8, 13, 40, 120, STEPS - 2, STEPS - 1, STEPS, STEPS + 1])
         dy = rng.random() < 0.6
         ps = [pair_ivl(rng, None, dy) for _ in range(k)]
         keep = [rng.random() < 0.3 for _ in range(k)]
@@ -1878,6 +2015,60 @@ def gen_cases(ctx):
         form = rng.choice(["list", "vec", "objs"])
         add("stack", {"f": "stack", "weights": w, "form": form, "k": k},
             [{"lo": lo1, "hi": hi1}, {"lo": lo2, "hi": hi2}], True, nontriv=(lo1 != lo2 or hi1 != hi2))
+    # ---- 10b. Dempster-Shafer operands (practice K: duplicated / nested / unordered focal elements, unequal masses):
+    #            X within X' focal element by focal element; the widening makes elements coincide, nest or change order
+    MASSES = [[0.5, 0.5], [0.3, 0.3, 0.4], [0.25, 0.25, 0.5], [0.1, 0.2, 0.3, 0.4], [0.2, 0.2, 0.2, 0.2, 0.2],
+              [0.125, 0.125, 0.25, 0.5], [0.05, 0.15, 0.8], [1 / 3, 1 / 3, 1 / 3], [0.4, 0.35, 0.25]]
+    for gi in range(S(110, 2400)):
+        ms = list(rng.choice(MASSES))
+        rng.shuffle(ms)
+        kf = len(ms)
+        mode = ["coincide", "nest", "reorder", "random", "coincide"][gi % 5]
+        scale_ = rng.choice([1, 1, 1, 0.5, 2.0 ** -40, 2.0 ** 30])
+        wide = []
+        if mode == "coincide":
+            a = rng.randint(-5, 5); b = a + rng.randint(1, 6)
+            wide = [[a, b] for _ in range(rng.choice([2, 2, kf]))]
+            while len(wide) < kf:
+                c = rng.randint(-8, 8); wide.append([c, c + rng.randint(0, 6)])
+            wide = wide[:kf]
+        elif mode == "nest":
+            a, b = rng.randint(-6, 0), rng.randint(6, 12)
+            for j in range(kf):
+                wide.append([min(a + j, b - j), b - j] if rng.random() < 0.7 else [a, b - j])
+        elif mode == "reorder":
+            c0 = rng.randint(-5, 5)
+            wide = [[c0 - rng.randint(0, 4), c0 + rng.randint(0, 4) + j] for j in range(kf)]
+        else:
+            for j in range(kf):
+                c = rng.randint(-8, 8); wide.append([c, c + rng.randint(0, 6)])
+        rng.shuffle(wide)
+        narrow = []
+        for (a, b) in wide:
+            if b == a:
+                narrow.append([a, b]); continue
+            u = rng.choice([0, 0, 0.25, 0.5]) * (b - a)
+            v = rng.choice([0, 0, 0.25, 0.5]) * (b - a)
+            if rng.random() < 0.2:
+                pt = rng.choice([a, b, (a + b) / 2]); narrow.append([pt, pt])
+            else:
+                narrow.append([a + u, b - v] if a + u <= b - v else [a, b])
+        lo1, hi1 = [v[0] * scale_ for v in narrow], [v[1] * scale_ for v in narrow]
+        lo2, hi2 = [v[0] * scale_ for v in wide], [v[1] * scale_ for v in wide]
+        use = rng.choice(["to_pbox", "to_pbox", "roundtrip", "bin", "bin", "rbin", "env", "imp"])
+        spec = {"f": "dss", "use": use, "masses": ms, "mode": mode, "ctor": rng.choice(["lists", "objs", "vec"]),
+                "mass_list": rng.random() < 0.5}
+        r1, r2 = {"lo": lo1, "hi": hi1}, {"lo": lo2, "hi": hi2}
+        if use in ("bin", "rbin", "env", "imp"):
+            spec["op"] = rng.choice(["add", "sub", "mul"]) if use in ("bin", "rbin") else None
+            spec["dep"] = rng.choice("fpoi") if use == "bin" else ("f" if use == "rbin" else None)
+            y = base_box(rng, STEPS, None, False)
+            if use == "imp":
+                y = ([min(lo2)] * STEPS, [max(hi2)] * STEPS)
+            else:
+                y = ([v * scale_ for v in y[0]], [v * scale_ for v in y[1]])
+            r1["y"], r2["y"] = y, y
+        add("dss", spec, [r1, r2], exact=False, nontriv=(lo1 != lo2 or hi1 != hi2))
     # ---- 11. alpha-cuts
     for _ in range(S(150, 2000)):
         general = pick_general(rng, 0.3, 0.2)
@@ -2013,7 +2204,7 @@ WITNESSES = [
 
 # =====================================================================================================
 def features(spec, extra):
-    keep = ("f", "op", "dep", "fn", "k", "rule", "agg", "api", "strategy", "style", "monotone", "repeated", "side", "ykind", "form", "rep",
+    keep = ("f", "op", "dep", "fn", "k", "use", "rule", "agg", "api", "strategy", "style", "monotone", "repeated", "side", "ykind", "form", "rep",
             "family", "order")
     d = {("family" if k == "f" else ("copula" if k == "family" else k)): spec[k] for k in keep if k in spec and spec[k] is not None}
     d.update(extra)
@@ -2077,7 +2268,7 @@ def run(ctx: core.Check):
     for ci, c in enumerate(cases):
         for ri, inp in enumerate(c["runs"]):
             w = wire(c["spec"], inp)
-            if w is not None and c["spec"]["f"] == "stack" and cum_ambiguous(c["spec"], inp):
+            if w is not None and c["spec"]["f"] in ("stack", "dss") and cum_ambiguous(c["spec"], inp):
                 w = None
                 ctx.bump("stack-tie-skipped-near-grid-level")
             if w is not None:
@@ -2267,13 +2458,15 @@ def _oracle(ctx, c, impls, dep):
             # with a pole / a domain edge (negative powers, reciprocal, sqrt, log) a wider operand that leaves the
             # domain must not come back with a finite value that does not contain the narrower result
             fn = spec.get("fn", "")
-            if spec["f"] in ("ivl-un", "pb-un") and (fn in ("powk", "recip", "log", "sqrt", "nplog", "npsqrt")) and i > 0 \
-                    and doms[i - 1] and impls[i - 1][0] == "ok" and finite(impls[i - 1]):
+            pole = (spec["f"] in ("ivl-un", "pb-un") and fn in ("powk", "recip", "log", "sqrt", "nplog", "npsqrt")) \
+                or spec["f"] == "pb-recip" or (spec["f"] == "pb-num" and spec["op"] == "div" and spec["side"] == "L") \
+                or (spec["f"] in ("pb-bin", "ivl-bin") and spec["op"] == "div")
+            if pole and i > 0 and doms[i - 1] and impls[i - 1][0] == "ok" and finite(impls[i - 1]):
                 w = contained(impls[i - 1], im, exact, dep, hint)
                 if w is not None:
                     ctx.fail(features(spec, {"check": "must-raise", "symptom": "finite-non-containing-value-outside-domain", "k": spec.get("k")}),
                              {**case_json, "witness": w, "impl": [pbx.js(x_[:3]) for x_ in impls if x_[0] == "ok"]},
-                             f"{stream}: the wider operand is outside the domain of {fn}{spec.get('k', '')} (a pole / an undefined value inside): "
+                             f"{stream}: the wider operand is outside the domain of {fn or spec.get('op') or 'reciprocal'}{spec.get('k', '')} (a pole / an undefined value inside): "
                              f"the call has to raise, it returned a finite value that does not contain the result for the contained operand "
                              f"({w['why']}: {w.get('narrow')} vs {w.get('wide')})")
                     return
